@@ -272,7 +272,7 @@ def cases(c):
         for cplx in (0, 1):
             for prof in PROFILES:
                 out.append({'p': p, 'cplx': cplx, 'prof': prof, 'r0exp': 0, 'directed': p in (1, 2, 3, 16)})
-    for i in range(200 if c.tier == 'quick' else 6000):
+    for i in range(1500 if c.tier == 'quick' else 9000):
         out.append({'p': int(rng.integers(1, 17)), 'cplx': int(rng.integers(0, 2)),
                     'prof': gen.pick(rng, PROFILES), 'r0exp': int(rng.integers(-3, 4)), 'i': i})
     return out
